@@ -309,19 +309,22 @@ class C10(Spec):
 
     @staticmethod
     def _data_problem(out, gs, rs):
-        """data(): `1` (NULL) or `0 <block> <offset> [<nul> <chars>]`.  A string with contents (its vector holds
-        elements) must give the start of the string's own storage, where the reference characters followed by NUL are
-        read; an empty one NULL or the start of its own (reserved) storage."""
+        """data(): `1` (NULL) or `0 <block> <offset> [<nul> <chars>]`.  A non-empty string must give a pointer; a
+        pointer must be the start of the string's own storage, where - once the vector holds elements - the reference
+        characters followed by NUL are read."""
         if not out or out[0] not in (0, 1) or (out[0] == 1 and len(out) != 1) or (out[0] == 0 and len(out) < 3):
             return ('garbled', 'unparsable result %s' % out)
         if out[0] == 1:
-            if gs['vcount'] > 0 or rs:
+            # "If the string is empty, the function may or may not return NULL" (_string.h); that the code returns
+            # NULL exactly when the string owns no storage is checked by the comparison with the model
+            if rs:
                 return ('null-with-contents', 'data() is NULL although the string holds %d characters' % len(rs))
-            if gs['blk'] != -1:
-                return ('wrong-pointer', 'data() is NULL although the string owns block %d' % gs['blk'])
             return None
         blk, off = out[1], out[2]
-        if blk != gs['blk'] or off != 0 or blk < 0:
+        if blk < 0:
+            return ('wrong-pointer', 'data() is neither NULL nor inside a live block (the string\'s storage is %s)' % (
+                'block %d' % gs['blk'] if gs['blk'] >= 0 else 'absent'))
+        if blk != gs['blk'] or off != 0:
             return ('wrong-pointer', 'data() points at offset %d of block %d, the string\'s storage is block %d' % (
                 off, blk, gs['blk']))
         if gs['vcount'] > 0:
